@@ -60,6 +60,11 @@ pub fn leaf_edits(v: &Value, r: &mut Rng) -> Vec<(String, Value)> {
                 for v in [format!(" {}", s), format!("{} ", s), format!("{}/", s), format!("./{}", s), format!("{}\u{0}", s), format!("\u{feff}{}", s)] {
                     variants.push(Value::String(v));
                 }
+                // the same text inside another shape: the tagged spelling serde gives an enum's catch-all
+                // variant (`{"Unknown": "<name>"}` is how a signature scheme outside the known ones is
+                // written), a one-element list
+                variants.push(serde_json::json!({ "Unknown": s }));
+                variants.push(serde_json::json!([s]));
                 if s.contains('\n') {
                     variants.push(Value::String(s.replace('\n', "\\n")));
                 }
@@ -140,8 +145,9 @@ pub fn leaf_edits(v: &Value, r: &mut Rng) -> Vec<(String, Value)> {
         }
         for var in variants {
             let mut d = v.clone();
+            let shape = matches!((&leaf, &var), (Value::String(_), Value::Object(_)));
             *get_mut(&mut d, &p) = var;
-            out.push((format!("{:?}", p), d));
+            out.push((format!("{:?}{}", p, if shape { " #shape" } else { "" }), d));
         }
     }
     out
@@ -225,7 +231,9 @@ fn case(sink: &mut Sink, model: &mut Model, r: &mut Rng, pool: &[KeyInfo], meta:
         let j = i + r.below(edits.len() - i);
         edits.swap(i, j);
     }
-    for (path, j2) in edits.into_iter().take(take) {
+    // (the re-shaped leaves are few and almost all refused by the parser: all of them are tried)
+    let shaped: Vec<(String, Value)> = edits.iter().skip(take).filter(|e| e.0.ends_with("#shape")).cloned().collect();
+    for (path, j2) in edits.into_iter().take(take).chain(shaped.into_iter()) {
         let replay = format!("signed {} // edit at {} => {}", proto(&j, &mut None), path, proto(&j2, &mut None));
         let text2 = j2.to_string();
         let m2: MetadataWrapper = match guarded(|| serde_json::from_str::<MetadataWrapper>(&text2)) {
